@@ -648,6 +648,7 @@ func checkC20(c *Ctx, r *Report) {
 	// ---- C20.f every configuration field is consumed
 	checkConfigLiveness(c, r, fields)
 
+	ruleEarlyExitInventory(c, r, "C20.d", 4, "core/arbitrators", "cmd", "generator/routes", "generator/swagen")
 	// every element filter in these packages is a reviewed one
 	ruleSkipInventory(c, r, "C20.d", loadSkipTable(c.VerifDir), 4, "core/arbitrators")
 }
